@@ -189,3 +189,44 @@ package funnel
 //verif:ensures[inv] mInv(m)
 //verif:loop 0 vars j
 //verif:loop 0 invariant mInv(m) && posIdxInv(m) && j < len(ob.positions) && BLens(ob) && m.released == old(m.released)
+
+// ---- Batch mutators: index preconditions and size effects (C05, C08, C09) ----------
+// "active" = records that are not filtered; all indices refer to active records.
+//verif:def active(b) = len(b.records) - b.filterCount
+
+//verif:func (*Batch).ActiveRecords(b) (r)
+//verif:requires BLens(b)
+//verif:ensures[count] len(r) == active(b)
+//verif:modifies nothing
+
+//verif:func (*Batch).SetRecords(b, i, recs)
+//verif:requires BLens(b) && 0 <= i && i + len(recs) <= active(b)
+//verif:ensures[shape] BLens(b) && len(b.records) == old(len(b.records)) && b.filterCount == old(b.filterCount)
+
+//verif:func (*Batch).Filter(b, i, j)
+//verif:requires BLens(b) && 0 <= i && len(j) <= 1 && (len(j) == 0 ==> i < active(b)) && (len(j) == 1 ==> i < j[0] && j[0] <= active(b))
+//verif:ensures[shape] BLens(b) && len(b.records) == old(len(b.records)) && b.filterCount == old(b.filterCount) + ite(len(j) == 1, j[0] - i, 1)
+
+//verif:func (*Batch).Retry(b, i, j)
+//verif:requires BLens(b) && 0 <= i && len(j) <= 1 && (len(j) == 0 ==> i < active(b)) && (len(j) == 1 ==> i < j[0] && j[0] <= active(b))
+//verif:ensures[shape] BLens(b) && len(b.records) == old(len(b.records)) && b.filterCount == old(b.filterCount)
+
+//verif:func (*Batch).Nack(b, i, errs)
+//verif:requires BLens(b) && 0 <= i && i + len(errs) <= active(b)
+//verif:ensures[shape] BLens(b) && len(b.records) == old(len(b.records)) && b.filterCount == old(b.filterCount) && b.tainted
+
+//verif:func (*Batch).SplitRecord(b, i, recs)
+//verif:requires BLens(b) && 0 <= i && i < active(b) && len(recs) >= 2
+//verif:ensures[shape] BLens(b) && len(b.records) == old(len(b.records)) + len(recs) - 1 && b.filterCount == old(b.filterCount)
+
+// ---- ProcessorTask (C08, C09) -------------------------------------------------------
+// Whatever the processor returns, results are mapped onto existing active records
+// only: every marked range lies inside [0, active).
+//verif:func (*ProcessorTask).Do(t, ctx, b) (err)
+//verif:requires BLens(b)
+//verif:call[ranges-inside-the-batch] (*ProcessorTask).markBatchRecords requires arg1 == b && 0 <= arg2 && arg2 + len(arg3) <= active(b) && BLens(b)
+//verif:loop 0 invariant BLens(b) && 0 - 1 <= i && i < to && to <= len(recsOut) && to <= active(b)
+
+//verif:func (*ProcessorTask).markBatchRecords(t, b, from, records)
+//verif:requires BLens(b) && 0 <= from && from + len(records) <= active(b)
+//verif:ensures[shape] BLens(b) && active(b) >= old(active(b)) - len(records)
